@@ -124,11 +124,11 @@ func (g *gen) leaf() *S {
 		if g.rng.Chance(1, 8) {
 			s.N = 32
 		}
-		s.P = g.odd && g.rng.Chance(1, 5)
+		s.P = g.rng.Chance(1, 4)
 
 		return s
 	case x < 84:
-		return g.typedBytes(!(g.odd && g.rng.Chance(1, 3)))
+		return g.typedBytes(g.rng.Chance(3, 5))
 	case x < 92:
 		return mk("u256")
 	default:
@@ -258,8 +258,8 @@ func (g *gen) typ(depth int) *S {
 			case y < 8:
 				t = g.structS(depth+1, true)
 			default:
-				t = g.typedBytes(!(g.odd && g.rng.Chance(1, 3)))
-				if t.N < 0 {
+				t = g.typedBytes(g.rng.Chance(3, 5))
+				if t.N < 0 && t.P {
 					continue
 				}
 			}
